@@ -136,6 +136,7 @@ func runC19(w *World) *Result {
 	r.Rule("R-C19-errors", "every error result in main is checked and leads to a non-zero exit", 3)
 	r.Rule("R-C19-fresh", "each Transpile receives a converter constructed for that use, and no package-level state of the library survives from one use to the next", 2)
 	GlobalStateRule(w, r, "R-C19-fresh")
+	c14TranspileState(w, r, "R-C19-fresh")
 	r.Rule("R-C19-args", "every command-line argument is consumed by the option loop", 1)
 	mainPkg := w.Pkgs["main"].Types
 	// --- mutators across all product packages
